@@ -71,3 +71,10 @@ def _either_field_in(v, params):
 @predicate("field_endswith")
 def _field_endswith(v, params):
     return str(v.get(params.get("field"), "")).endswith(params.get("suffix", "\0"))
+
+
+@predicate("enc_has")
+def _enc_has(v, params):
+    """the re-encoding (a '+'-joined set of alternative names when two nodes are non-canonical) includes one of the values"""
+    parts = str(v.get("enc", "")).split("+")
+    return any(x in parts for x in params.get("values", []))
